@@ -9,7 +9,7 @@ import time
 from .model import AnalysisError, stmt_text, PKG
 
 VERIF = os.path.dirname(os.path.dirname(os.path.abspath(__file__)))
-EVIDENCE_DIR = os.path.join(VERIF, "evidence")
+EVIDENCE_DIR = os.environ.get("COAPLINT_EVIDENCE_DIR") or os.path.join(VERIF, "evidence")
 KNOWN_FILE = os.path.join(VERIF, "known_findings.json")
 
 COMMON_ASSUMPTIONS = [
@@ -148,6 +148,8 @@ def finish(ctx, t0, seed, explanation, rule_text, extra_cov=None, selftest=None)
         "samples": samples[:40],
         "clauses": {c: ctx.clause_desc.get(c, "") for c in clauses},
         "program": ctx.prog.stats(),
+        "anchors_resolved": sorted(ctx.prog.touched),
+        "functions_with_obligations": sorted({o["function"] for o in ctx.obligations if o["function"] != "-"}),
         "known_findings_printed": [v.as_dict() for v in known_hit],
         "notes": ctx.notes,
         "analysis_errors": list(getattr(ctx, "analysis_errors", [])),
